@@ -11,5 +11,7 @@ def run(c):
     ct = A.conv_table_for([])
     A.obl_emoji(c, ct, thorough=(c.tier == "thorough"), budget_s=1200)      # phonetic: emoticon / emoji name / English under symbolic ANSI
     A.obl_fixed_assembly(c, thorough=(c.tier == "thorough"), budget_s=1200)  # fixed: same switches
+    # the method object and its memo survive an option change (update_engine, same layout): the switches are read when a word is shown
+    A.obl_reconfig(c, ct, thorough=(c.tier == "thorough"), budget_s=900)
     c.outside("'contains no Bengali-block code point for every dictionary word and suffix-joined form': a statement about poriborton on 159k "
               "concrete strings, not a bounded solver query (the encoder is a tagging stub in the read-out harnesses)")
